@@ -365,3 +365,7 @@ impl State for FileState {
         Ok(())
     }
 }
+
+#[cfg(kani)]
+#[path = "/verif/harness/server/hooks/state_file.rs"]
+pub(crate) mod verif_hook;
